@@ -87,6 +87,7 @@ class Run:
         self._pre = self._prev = None
         self.sched_digests = set()
         self.thread_yields = []
+        self.metadata_games = False
         self.build_no = 0
         for m in sc.get('init', []):
             self.sb.apply_mutation(m)
@@ -178,6 +179,9 @@ class Run:
         try:
             if op == 'mutate':
                 self.sb.clock.advance(step.get('tick', 1))
+                if step.get('tick', 1) <= 0 or any(
+                        m[0] == 'stealth' for m in step['muts']):
+                    self.metadata_games = True
                 for m in step['muts']:
                     self.sb.apply_mutation(m)
                 self.log.append(['mutate', i])
@@ -327,6 +331,8 @@ class Run:
     def build_step(self, i, step):
         sb = self.sb
         sb.clock.advance(step.get('tick', 1))
+        if step.get('tick', 1) <= 0:
+            self.metadata_games = True
         self.build_no = i
         pre = sb.snapshot()
         prev, cache_node = self.prev_record(pre)
@@ -430,6 +436,29 @@ class Run:
         for k, c in mb.causes.items():
             c = c.split(' ')[0] if isinstance(c, str) else str(c)
             self.stats['causes'][c] = self.stats['causes'].get(c, 0) + 1
+        if prev is not None and self.cfg.get('m1_crosscheck') and \
+                not self.metadata_games:
+            # model self-consistency: what the incremental model (M2) serves
+            # from the record must equal what the from-scratch model (M1)
+            # computes - otherwise a too permissive replay rule in the model
+            # could hide real staleness
+            m1 = self.model_build(step, pre, prev, serve=False, shints=shints)
+            same = (m1.kind, m1.exc) == (model.kind, model.exc) and (
+                m1.kind != 'ok' or m1.value == model.value)
+            if same and m1.kind == 'ok':
+                t1, _ = commit(m1.mb)
+                t2, _ = commit(model.mb)
+                same = {p: (n[0], n[1] if n[0] == 'f' else None)
+                        for p, n in t1.nodes.items()} == {
+                    p: (n[0], n[1] if n[0] == 'f' else None)
+                    for p, n in t2.nodes.items()}
+            if not same:
+                raise HarnessError(
+                    'reference model disagrees with itself (M1 from scratch '
+                    'vs M2 incremental) at step %d: %r / %r' % (
+                        i, (m1.kind, m1.exc, digest(m1.value)),
+                        (model.kind, model.exc, digest(model.value))))
+            self.probe('m1-m2-crosschecks')
         try:
             self.compare_build(i, ctx)
         except Violation as v:
@@ -1213,6 +1242,8 @@ def run_scenario(sc, opts=None):
                 res['fault'] = run.current_fault
         except Invalid as e:
             res = {'verdict': 'invalid', 'why': str(e)}
+        except HarnessError as e:
+            res = {'verdict': 'error', 'error': 'HarnessError: %s' % e}
         run.stats['clock_span_s'] = (
             run.sb.clock.hi - run.sb.clock.lo) // 1000000000
         res['log_digest'] = digest(run.log, 16)
